@@ -37,24 +37,32 @@ DoOp ==
         /\ ex' = IF ok \/ ex.drift # 0 THEN ex ELSE [ex EXCEPT !.drift = l]
         /\ sum' = IF ok \/ ex.drift # 0 THEN sum ELSE Drift(sum)
   /\ UNCHANGED <<got, raws>>
+(* The PROPERTY (C14) is judged on the raw ids alone: no id is returned twice, and generators with the
+   same namespace issue the same ids for the same number of calls.  That the id of the call which took
+   counter value n is v5(namespace, n) is conformance to the model of the pinned derivation: a deviation
+   is drift (the check then escalates with more calls and counter positions), not a violation. *)
 DoRet ==
   /\ Line.k = "ret"
   /\ LET ok == pend[Line.t] # -1 /\ Line.id = pend[Line.t]      \* the id is v5(ns, value taken by this call)
-         dup == Line.raw \in raws \/ Line.id \in Range(got)
+         dup == Line.raw \in raws
      IN /\ got' = Append(got, Line.id) /\ raws' = raws \cup {Line.raw}
         /\ pend' = [pend EXCEPT ![Line.t] = -1]
         /\ ex' = IF ok \/ ex.drift # 0 THEN ex ELSE [ex EXCEPT !.drift = l]
         /\ sum' = Add(IF ok \/ ex.drift # 0 THEN [sum EXCEPT !.calls = @ + 1] ELSE Drift([sum EXCEPT !.calls = @ + 1]),
-                      (IF dup THEN {Fail("C14")} ELSE {}) \cup (IF Line.id = -1 THEN {Fail("C14")} ELSE {}))
+                      IF dup THEN {Fail("C14")} ELSE {})
   /\ UNCHANGED counter
 DoEnd ==
   /\ Line.k = "end"
   /\ LET g2 == Line.gen2
-         okrepro == /\ Len(g2) = Line.total
-                    /\ \A k \in DOMAIN g2 : g2[k].id = k - 1            \* call number k gets v5(ns, k-1)
-                    /\ Range(got) = {k - 1 : k \in 1..Line.total}       \* the concurrent run issued the same ids
-                    /\ Len(got) = Line.total
-     IN sum' = Add(sum, IF okrepro THEN {} ELSE {Fail("C14")})
+         g3 == Line.gen3
+         raws2 == {g2[k].raw : k \in DOMAIN g2}
+         okrepro == /\ Len(g2) = Line.total /\ Len(g3) = Line.total /\ Len(got) = Line.total
+                    /\ \A k \in DOMAIN g2 : g2[k].raw = g3[k]         \* two generators, call by call
+                    /\ Cardinality(raws2) = Line.total               \* pairwise distinct
+                    /\ raws2 = raws                                  \* the concurrent run issued the same ids
+         okmodel == /\ \A k \in DOMAIN g2 : g2[k].id = k - 1            \* call number k gets v5(ns, k-1)
+                    /\ Range(got) = {k - 1 : k \in 1..Line.total}
+     IN sum' = Add(IF okmodel \/ ex.drift # 0 THEN sum ELSE Drift(sum), IF okrepro THEN {} ELSE {Fail("C14")})
   /\ UNCHANGED <<counter, pend, got, raws, ex>>
 Next == /\ l <= Len(Rec) /\ l' = l + 1 /\ (DoReset \/ DoCall \/ DoOp \/ DoRet \/ DoEnd)
 Spec == Init /\ [][Next]_vars
